@@ -144,12 +144,27 @@ pub struct Overlap {
 /// Both uploads are AddVersion(nil) - by two clients, or by ONE client (then at most one of them can
 /// be accepted and `a_down == b_down` is that client's first version).
 pub fn overlapping_version_uploads(addr: &str, ca: Uuid, cb: Uuid, na: usize, nb: usize, seed: u64) -> Overlap {
+    overlapping_version_uploads_pattern(addr, ca, cb, na, nb, seed, false)
+}
+
+/// `abab`: the bodies arrive in the order A.first, B.first, A.rest, B.rest (A completes while B is in
+/// the middle of its body) instead of A.first, B (whole, three chunks), A.rest.
+pub fn overlapping_version_uploads_pattern(addr: &str, ca: Uuid, cb: Uuid, na: usize, nb: usize, seed: u64, abab: bool) -> Overlap {
     use crate::http::socket_request_two_parts;
     let da = PaySpec::new(na, 0, seed ^ 0xA).bytes();
     let db = PaySpec::new(nb, 0, seed ^ 0xB).bytes();
     let ra = Req::AddVersion { parent: Uuid::nil(), data: da.clone() };
     let rb = Req::AddVersion { parent: Uuid::nil(), data: db.clone() };
     let ha = Subject::build_http(ca, &ra);
+    if abab {
+        let hb = Subject::build_http(cb, &rb);
+        let (xa, xb) = crate::http::socket_uploads_abab(addr, &ha, &hb, Duration::from_secs(30));
+        let a_up = Subject::decode_http(&ra, &xa);
+        let b_up = Subject::decode_http(&rb, &xb);
+        let a_down = sock_exec(addr, ca, &Req::GetChild { parent: Uuid::nil() }, None, Framing::ContentLength).0;
+        let b_down = sock_exec(addr, cb, &Req::GetChild { parent: Uuid::nil() }, None, Framing::ContentLength).0;
+        return Overlap { a_up, b_up, a_down, b_down, da, db };
+    }
     let mut b_up = Resp::Error("not sent".into());
     let resp_a = {
         let mut between = || {
@@ -433,6 +448,36 @@ pub fn shard_run(tier: &str, seed: u64, replay_case: Option<usize>, shard: Shard
                     });
                     out.cov = cov;
                     return out;
+                }
+            }
+        }
+    }
+    // ---- the same with the bodies arriving as A.first, B.first, A.rest, B.rest
+    if replay_case.is_none() && shard.k == (9 % shard.n) {
+        for workers in [1usize, 2] {
+            let web = WebServer::new(Config::default().to_server(), None, InMemoryStorage::new());
+            let Ok(srv) = SockServer::start(web, workers) else { continue };
+            for (i, (na, nb)) in [(3000usize, 200usize), (70_000, 70_000), (8, 300_000), (300_000, 8)].iter().enumerate() {
+                let (ca, cb) = (Uuid::new_v4(), Uuid::new_v4());
+                let o = overlapping_version_uploads_pattern(&srv.addr, ca, cb, *na, *nb, seed ^ (i as u64) << 5 ^ 0xABAB, true);
+                cov.evaluations += 2;
+                cov.hit(format!("interleaved-uploads|workers={workers}|A1,B1,A2,B2"));
+                for (who, up, down, want) in [("A", &o.a_up, &o.a_down, &o.da), ("B", &o.b_up, &o.b_down, &o.db)] {
+                    let ok = matches!((up, down), (Resp::AddOk { .. }, Resp::Found { data, .. }) if data == want);
+                    if !ok {
+                        let desc = match down {
+                            Resp::Found { data, .. } => format!("{} bytes returned for {} uploaded, first difference at {:?}", data.len(), want.len(), first_diff(data, want)),
+                            o => o.short(),
+                        };
+                        out.found.push(Found {
+                            property: "C06".into(),
+                            signature: "C06:interleaved uploads".into(),
+                            msg: format!("two uploads overlapping on a {workers}-worker server (bodies arriving as A.first, B.first, A.rest, B.rest; A {na} bytes, B {nb} bytes): upload {who} answered {} and is read back as {desc}", up.outcome()),
+                            replay: json!({"origin": "c06-interleaved-abab", "case": i, "workers": workers}),
+                        });
+                        out.cov = cov;
+                        return out;
+                    }
                 }
             }
         }
